@@ -562,6 +562,29 @@ def fact_code_hash_refreshed(repo):
         return None
 
 
+def fact_memstore_atomic_insert(repo):
+    """MemoryStorageBackend keeps its per-function tables in defaultdict(dict) (the inner map is created by one indivisible
+    step), or its writers use dict.setdefault; False if they test for the key and then assign"""
+    try:
+        tree = _parse(repo, "storage_memory.py")
+        cls = _find_class(tree, "MemoryStorageBackend")
+        init = _find_func(cls, "__init__")
+        dd = 0
+        for n in ast.walk(init):
+            if isinstance(n, ast.Assign) and isinstance(n.targets[0], ast.Attribute) and n.targets[0].attr in ("mementos", "metadata"):
+                v = n.value
+                if isinstance(v, ast.Call) and isinstance(v.func, ast.Name) and v.func.id == "defaultdict":
+                    dd += 1
+        if dd == 2:
+            return True
+        writers = [_find_func(cls, "memoize"), _find_func(cls, "write_metadata")]
+        if all("setdefault" in _calls(w) for w in writers):
+            return True
+        return False
+    except Exception:
+        return None
+
+
 def fact_scope_follows_memento_fn(repo):
     """below a memento function the package scope is (re)bound to that function's own package, as a fresh set (no shared mutation)"""
     try:
@@ -741,6 +764,11 @@ def _f26(repo):
 @fact("anonymous_helpers_distinct", "option bool")
 def _f27(repo):
     return _opt_bool(fact_anonymous_helpers_distinct(repo))
+
+
+@fact("memstore_atomic_insert", "option bool")
+def _f30(repo):
+    return _opt_bool(fact_memstore_atomic_insert(repo))
 
 
 @fact("code_hash_refreshed", "option bool")
